@@ -24,15 +24,17 @@ def real_sequences(rng):
            "g": rng.choice([0.0, 0.02, -0.05]), "a2": rng.choice([60., 150.])}
     shared = rng.random() < 0.5
     # an operator WITHOUT differentiable parameter in the middle ("whatever other operators, differentiable or not")
-    mid = rng.choice(["wait", "spoiler", "pd", "pd-noreset", "reset", "wait", "spoiler-late"])
+    mid = rng.choice(["wait", "spoiler", "pd", "pd-noreset", "reset", "diffusion", "diffusion", "spoiler-late"])
 
     def plain_op():
         return {"wait": epg.Wait(1.0), "spoiler": epg.SPOILER, "pd": epg.PD(1.5), "pd-noreset": epg.PD(0.7, reset=False),
-                "reset": epg.RESET, "spoiler-late": epg.Wait(1.0)}[mid]
+                "reset": epg.RESET, "spoiler-late": epg.Wait(1.0),
+                # a diffusion interval (not idempotent, depends on the wavenumbers: kvalue is set by System below)
+                "diffusion": epg.D(5.0, 0.05)}[mid]
 
     def make(p, diff):
         o1 = (lambda *names: {"order1": list(names)}) if diff else (lambda *names: {})
-        ops = [epg.T(p["alpha"], p["phi"], **o1("alpha", "phi")), epg.S(1),
+        ops = ([epg.System(kvalue=2e4)] if mid == "diffusion" else []) + [epg.T(p["alpha"], p["phi"], **o1("alpha", "phi")), epg.S(1),
                epg.E(p["tau"], p["T1"], p["T2"], p["g"], **o1("tau", "T1", "T2", "g")), plain_op(),
                epg.T(p["a2"], 10.0), epg.S(1 if shared else -1)] + ([epg.SPOILER, epg.T(25.0, 40.0)] if mid == "spoiler-late" else []) + [
 
@@ -50,6 +52,8 @@ KNOWN_WITNESSES = [
     ("PD(reset=False)", lambda epg, a, d: [epg.T(a, 0, **d), epg.S(1), epg.E(5, 1000, 50), epg.PD(2.0, reset=False), epg.T(a, 10, **d), epg.E(5, 1000, 50), epg.S(-1), epg.ADC]),
     ("X", lambda epg, a, d: [epg.PD([0.7, 0.3]), epg.T(a, 0, **d), epg.S(1),
                              epg.X(5.0, [[-0.1, 0.1 * 0.7 / 0.3], [0.1, -0.1 * 0.7 / 0.3]], T1=[1000, 500], T2=[50, 30]), epg.T(a, 10, **d), epg.S(-1), epg.ADC]),
+    ("D(kvalue)", lambda epg, a, d: [epg.System(kvalue=2e4), epg.T(a, 0, **d), epg.S(1), epg.E(5, 1000, 50), epg.D(5.0, 0.05), epg.T(a, 90, **d), epg.S(1), epg.D(5.0, 0.05), epg.ADC,
+                                     epg.T(a, 90, **d), epg.S(1), epg.D(5.0, 0.05), epg.ADC]),
     ("MultiOperator", lambda epg, a, d: [epg.T(a, 0, **d), epg.S(1), epg.E(5, 1000, 50), epg.operator.MultiOperator([epg.SPOILER, epg.PD(2.0, reset=False)]), epg.T(a, 10, **d), epg.E(5, 1000, 50), epg.ADC]),
 ]
 
